@@ -6,7 +6,16 @@ From PFDL Require Import NetModel.
 From Coq Require Import Lia.
 
 (* the three creation counters: places, transitions, API records *)
-Record pos := mkpos { pp : nat; pt : nat; pa : nat }.
+(* the source position of a statement occurrence: task, path of the enclosing block, index in
+   that block (PetriNetGenerator names a counting loop by it) *)
+Record sinfo := mksi { s_tn : name; s_pre : list nat; s_idx : nat }.
+Definition s_path (k : sinfo) : list nat := s_pre k ++ [s_idx k].
+Definition si_next (k : sinfo) : sinfo := mksi (s_tn k) (s_pre k) (S (s_idx k)).
+Definition si_sub (k : sinfo) : sinfo := mksi (s_tn k) (s_path k) 0.
+Definition si_sub2 (b : nat) (k : sinfo) : sinfo := mksi (s_tn k) (s_path k ++ [b]) 0.
+Definition si_task (t : name) : sinfo := mksi t [] 0.
+Record pos := mkpos { pp : nat; pt : nat; pa : nat; psi : sinfo }.
+Definition pkey (p : pos) : site := {| st_task := s_tn (psi p); st_path := s_path (psi p) |}.
 
 (* ---- induction principle for the nested type ---- *)
 Lemma xstmt_ind' : forall (P : xstmt -> Prop),
@@ -32,7 +41,12 @@ Qed.
 
 (* ---- the fragment: services, task calls with non-empty bodies, non-empty Parallel of calls,
         Conditions with a non-empty Passed block (the Failed block may be missing), While loops
-        with non-empty bodies; no called task is named like the production task ---- *)
+        with non-empty bodies, sequential counting loops with non-empty bodies; no called task is
+        named like the production task ---- *)
+(* counting loops belong to the layout / generator fragment (where they may stand, and which
+   parameters they allow, is restricted for the simulation only: Abs.sok) *)
+Definition count_ok : bool := true.
+
 Fixpoint frag (s : xstmt) : bool :=
   match s with
   | XService _ _ _ => true
@@ -43,6 +57,7 @@ Fixpoint frag (s : xstmt) : bool :=
   | XCond _ p f =>
     match p with [] => false | _ => forallb frag p end && forallb frag f
   | XWhile _ b => match b with [] => false | _ => forallb frag b end
+  | XCount _ _ b => count_ok && match b with [] => false | _ => forallb frag b end
   | _ => false
   end.
 Definition frag_block (ss : list xstmt) : bool :=
@@ -52,19 +67,21 @@ Definition frag_block (ss : list xstmt) : bool :=
 Fixpoint nplaces (s : xstmt) : nat :=
   match s with
   | XService _ _ _ => 3
-  | XCall _ _ _ body => list_sum (map nplaces body)
+  | XCall t _ _ body => list_sum (map nplaces body)
   | XParallel bs => S (list_sum (map nplaces bs))
   | XCond _ p f => 4 + list_sum (map nplaces p) + list_sum (map nplaces f)
   | XWhile _ b => 4 + list_sum (map nplaces b)
+  | XCount _ _ b => 4 + list_sum (map nplaces b)
   | _ => 0
   end.
 Fixpoint napis (s : xstmt) : nat :=
   match s with
   | XService _ _ _ => 1
-  | XCall _ _ _ body => S (list_sum (map napis body))
+  | XCall t _ _ body => S (list_sum (map napis body))
   | XParallel bs => list_sum (map napis bs)
   | XCond _ p f => list_sum (map napis p) + list_sum (map napis f)
   | XWhile _ b => list_sum (map napis b)
+  | XCount _ _ b => list_sum (map napis b)
   | _ => 0
   end.
 (* transitions of a block: one connection before every statement but the last *)
@@ -77,7 +94,7 @@ Definition ntrans_block (nt : xstmt -> nat) : list xstmt -> nat :=
 Fixpoint ntrans (s : xstmt) : nat :=
   match s with
   | XService _ _ _ => 1
-  | XCall _ _ _ body => ntrans_block ntrans body
+  | XCall t _ _ body => ntrans_block ntrans body
   | XParallel bs => S (list_sum (map ntrans bs))
   | XCond _ p f =>
     match f with
@@ -85,6 +102,7 @@ Fixpoint ntrans (s : xstmt) : nat :=
     | _ :: _ => 4 + ntrans_block ntrans p + ntrans_block ntrans f
     end
   | XWhile _ b => 3 + ntrans_block ntrans b
+  | XCount _ _ b => 3 + ntrans_block ntrans b
   | _ => 0
   end.
 Definition nplaces_l (l : list xstmt) : nat := list_sum (map nplaces l).
@@ -94,10 +112,10 @@ Definition ntrans_l (l : list xstmt) : nat := list_sum (map ntrans l).
 
 (* counters after the component *)
 Definition adv (s : xstmt) (p : pos) : pos :=
-  mkpos (pp p + nplaces s) (pt p + ntrans s) (pa p + napis s).
+  mkpos (pp p + nplaces s) (pt p + ntrans s) (pa p + napis s) (si_next (psi p)).
 
 (* position of the statements of a block *)
-Definition conn_skip (p : pos) : pos := mkpos (pp p) (S (pt p)) (pa p).
+Definition conn_skip (p : pos) : pos := mkpos (pp p) (S (pt p)) (pa p) (psi p).
 Definition first_pos (l : list xstmt) (p : pos) : pos :=
   match l with _ :: _ :: _ => conn_skip p | _ => p end.
 (* value of [f] at the last statement of a block starting at p *)
@@ -115,46 +133,51 @@ Definition cat_of {A} (f : xstmt -> pos -> list A) : list xstmt -> pos -> list A
     | b :: r => f b q ++ go r (adv b q)
     end.
 
-Definition body_pos (p : pos) : pos := mkpos (pp p) (pt p) (S (pa p)).
-Definition par_pos (p : pos) : pos := mkpos (S (pp p)) (S (pt p)) (pa p).
+Definition body_pos (t : name) (p : pos) : pos := mkpos (pp p) (pt p) (S (pa p)) (si_task t).
+Definition par_pos (p : pos) : pos := mkpos (S (pp p)) (S (pt p)) (pa p) (si_sub (psi p)).
 (* Condition: places passed, failed, expr, finished = pp .. pp+3; transitions first-passed,
    first-failed, second-passed = pt .. pt+2; then the Passed block, the second-failed
    transition, the Failed block *)
-Definition cond_p (p : pos) : pos := mkpos (pp p + 4) (pt p + 3) (pa p).
+Definition cond_p (p : pos) : pos := mkpos (pp p + 4) (pt p + 3) (pa p) (si_sub2 0 (psi p)).
+(* the body of a loop (same offsets) *)
+Definition loop_p (p : pos) : pos := mkpos (pp p + 4) (pt p + 3) (pa p) (si_sub (psi p)).
 Definition cond_f (P : list xstmt) (p : pos) : pos :=
-  mkpos (pp p + 4 + nplaces_l P) (pt p + 4 + ntrans_b P) (pa p + napis_l P).
+  mkpos (pp p + 4 + nplaces_l P) (pt p + 4 + ntrans_b P) (pa p + napis_l P) (si_sub2 1 (psi p)).
 Definition cond_sf (P : list xstmt) (p : pos) : nat := pt p + 3 + ntrans_b P.
 
 (* places that receive a token when the component is entered *)
 Fixpoint entries (s : xstmt) (p : pos) : list nat :=
   match s with
   | XService _ _ _ => [pp p]
-  | XCall _ _ _ body =>
-    match body with [] => [] | s0 :: _ => entries s0 (first_pos body (body_pos p)) end
+  | XCall t _ _ body =>
+    match body with [] => [] | s0 :: _ => entries s0 (first_pos body (body_pos t p)) end
   | XParallel bs => cat_of entries bs (par_pos p)
   | XCond _ _ _ => [pp p + 2]
   | XWhile _ _ => [pp p]
+  | XCount _ _ _ => [pp p]
   | _ => []
   end.
 (* callbacks the component registers on the transition that enters it, in order *)
 Fixpoint startcbs (s : xstmt) (p : pos) (ctx : nat) {struct s} : list cb :=
   match s with
   | XService _ _ _ => [CbSS (pa p)]
-  | XCall _ _ _ body =>
-    CbTS (pa p) :: match body with [] => [] | s0 :: _ => startcbs s0 (first_pos body (body_pos p)) (pa p) end
+  | XCall t _ _ body =>
+    CbTS (pa p) :: match body with [] => [] | s0 :: _ => startcbs s0 (first_pos body (body_pos t p)) (pa p) end
   | XParallel bs => cat_of (fun b q => startcbs b q ctx) bs (par_pos p)
   | XCond e _ _ => [CbCond e (pp p) (pp p + 1) ctx]
   | XWhile e _ => [CbWhile e (pp p + 1) (pp p + 2) ctx]
+  | XCount _ lim _ => [CbCount (pkey p) lim (pp p + 1) (pp p + 2) ctx]
   | _ => []
   end.
 (* the place whose token says "this component is complete" (input of the transition after it) *)
 Fixpoint xplace (s : xstmt) (p : pos) : nat :=
   match s with
   | XService _ _ _ => pp p + 2
-  | XCall _ _ _ body => last_of xplace 0 body (body_pos p)
+  | XCall t _ _ body => last_of xplace 0 body (body_pos t p)
   | XParallel _ => pp p
   | XCond _ _ _ => pp p + 3
   | XWhile _ _ => pp p + 3
+  | XCount _ _ _ => pp p + 3
   | _ => 0
   end.
 (* the transitions whose firing completes the component (done_t of its last service / the sync /
@@ -163,13 +186,14 @@ Fixpoint xplace (s : xstmt) (p : pos) : nat :=
 Fixpoint exits (s : xstmt) (p : pos) : list nat :=
   match s with
   | XService _ _ _ => [pt p]
-  | XCall _ _ _ body => last_of exits [] body (body_pos p)
+  | XCall t _ _ body => last_of exits [] body (body_pos t p)
   | XParallel _ => [pt p]
   | XCond _ P F => match F with
                    | [] => [pt p + 2; pt p + 1]
                    | _ :: _ => [pt p + 2; pt p + 3 + ntrans_block ntrans P]
                    end
   | XWhile _ _ => [pt p + 1]
+  | XCount _ _ _ => [pt p + 1]
   | _ => []
   end.
 
@@ -237,7 +261,7 @@ Section Wired.
       dict_get ident_eqb (IUuid (pa p)) (ns_place_dict N) = Some (pp p + 1)
     | XCall t at_ ins body =>
       (exists il, nth_error (ns_apis N) (pa p) = Some (call_api il t at_ ins ctx (pa p))) /\
-      wired_block wired N (pa p) (CbTF (pa p) :: xcbs) body (body_pos p)
+      wired_block wired N (pa p) (CbTF (pa p) :: xcbs) body (body_pos t p)
     | XParallel bs =>
       preN N (pt p) = cat_of (fun b q => [xplace b q]) bs (par_pos p) /\
       postN N (pt p) = [pp p] /\
@@ -263,13 +287,20 @@ Section Wired.
       end
     | XWhile e B =>
       (* places loop, then, else, done = pp .. pp+3; transitions condition-passed,
-         condition-failed, iteration = pt .. pt+2; the body follows (at [cond_p p]) *)
-      preN N (pt p) = [pp p; pp p + 1] /\ postN N (pt p) = entries_b B (cond_p p) /\
-      cbsN N (pt p) = startcbs_b B (cond_p p) ctx /\
+         condition-failed, iteration = pt .. pt+2; the body follows (at [loop_p p]) *)
+      preN N (pt p) = [pp p; pp p + 1] /\ postN N (pt p) = entries_b B (loop_p p) /\
+      cbsN N (pt p) = startcbs_b B (loop_p p) ctx /\
       preN N (pt p + 1) = [pp p; pp p + 2] /\ postN N (pt p + 1) = [pp p + 3] /\ cbsN N (pt p + 1) = xcbs /\
-      preN N (pt p + 2) = [xplace_b B (cond_p p)] /\ postN N (pt p + 2) = [pp p] /\
+      preN N (pt p + 2) = [xplace_b B (loop_p p)] /\ postN N (pt p + 2) = [pp p] /\
       cbsN N (pt p + 2) = [CbWhile e (pp p + 1) (pp p + 2) ctx] /\
-      wired_block wired N ctx [] B (cond_p p)
+      wired_block wired N ctx [] B (loop_p p)
+    | XCount v lim B =>
+      preN N (pt p) = [pp p; pp p + 1] /\ postN N (pt p) = entries_b B (loop_p p) /\
+      cbsN N (pt p) = startcbs_b B (loop_p p) ctx /\
+      preN N (pt p + 1) = [pp p; pp p + 2] /\ postN N (pt p + 1) = [pp p + 3] /\ cbsN N (pt p + 1) = xcbs /\
+      preN N (pt p + 2) = [xplace_b B (loop_p p)] /\ postN N (pt p + 2) = [pp p] /\
+      cbsN N (pt p + 2) = [CbCount (pkey p) lim (pp p + 1) (pp p + 2) ctx] /\
+      wired_block wired N ctx [] B (loop_p p)
     | _ => False
     end.
 End Wired.
@@ -294,6 +325,9 @@ Lemma ntrans_cond0 : forall e P, ntrans (XCond e P []) = 3 + ntrans_b P. Proof. 
 Lemma ntrans_while : forall e B, ntrans (XWhile e B) = 3 + ntrans_b B. Proof. reflexivity. Qed.
 Lemma nplaces_while : forall e B, nplaces (XWhile e B) = 4 + nplaces_l B. Proof. reflexivity. Qed.
 Lemma napis_while : forall e B, napis (XWhile e B) = napis_l B. Proof. reflexivity. Qed.
+Lemma ntrans_count : forall v l B, ntrans (XCount v l B) = 3 + ntrans_b B. Proof. reflexivity. Qed.
+Lemma nplaces_count : forall v l B, nplaces (XCount v l B) = 4 + nplaces_l B. Proof. reflexivity. Qed.
+Lemma napis_count : forall v l B, napis (XCount v l B) = napis_l B. Proof. reflexivity. Qed.
 Lemma nplaces_cond : forall e P F, nplaces (XCond e P F) = 4 + nplaces_l P + nplaces_l F. Proof. reflexivity. Qed.
 Lemma napis_cond : forall e P F, napis (XCond e P F) = napis_l P + napis_l F. Proof. reflexivity. Qed.
 Lemma nplaces_l_cons : forall s r, nplaces_l (s :: r) = nplaces s + nplaces_l r. Proof. reflexivity. Qed.
@@ -354,6 +388,8 @@ Lemma frag_cond_F : forall e P F, frag (XCond e P F) = true -> F <> [] -> frag_b
 Proof. intros e P F H Hne. apply (frag_cond_ne e P F Hne H). Qed.
 Lemma frag_while : forall e B, frag (XWhile e B) = true -> frag_block B = true.
 Proof. intros e B H. exact H. Qed.
+Lemma frag_count : forall v l B, frag (XCount v l B) = true -> frag_block B = true.
+Proof. intros v l B H. cbn [frag] in H. apply andb_prop in H. apply H. Qed.
 Lemma list_nil_dec : forall (l : list xstmt), {l = []} + {l <> []}.
 Proof. intros [|x r]; [left; reflexivity|right; discriminate]. Qed.
 
@@ -375,6 +411,9 @@ Proof.
     destruct p as [|s r]; [discriminate|]. apply frag_block_cons in HP. destruct HP as [Hs _].
     inversion IHp as [|? ? IHs _]; subst. specialize (IHs Hs). rewrite napis_l_cons. lia.
   - apply frag_while in H. rewrite ntrans_while, nplaces_while, napis_while.
+    destruct b as [|s r]; [discriminate|]. apply frag_block_cons in H. destruct H as [Hs _].
+    inversion IH as [|? ? IHs _]; subst. specialize (IHs Hs). rewrite napis_l_cons. lia.
+  - apply frag_count in H. rewrite ntrans_count, nplaces_count, napis_count.
     destruct b as [|s r]; [discriminate|]. apply frag_block_cons in H. destruct H as [Hs _].
     inversion IH as [|? ? IHs _]; subst. specialize (IHs Hs). rewrite napis_l_cons. lia.
 Qed.
@@ -401,11 +440,12 @@ Proof.
     intros H p0; try discriminate H.
   - cbn [exits ntrans]. split; [discriminate|]. intros e [<-|[]]. lia.
   - apply frag_call in H. destruct H as [_ H]. rewrite ntrans_call. cbn [exits].
-    apply (exits_range_block body IH H (body_pos p0)).
+    apply (exits_range_block body IH H (body_pos t p0)).
   - rewrite ntrans_par. cbn [exits]. split; [discriminate|]. intros e [<-|[]]. lia.
   - destruct f as [|f0 f]; [rewrite ntrans_cond0|rewrite ntrans_cond]; cbn [exits]; fold (ntrans_b p);
       (split; [discriminate|]); intros e0 [<-|[<-|[]]]; lia.
   - rewrite ntrans_while. cbn [exits]. split; [discriminate|]. intros e0 [<-|[]]. lia.
+  - rewrite ntrans_count. cbn [exits]. split; [discriminate|]. intros e0 [<-|[]]. lia.
 Qed.
 
 Lemma xplace_range_block : forall l,
@@ -426,10 +466,11 @@ Proof.
     intros H p0; try discriminate H.
   - cbn. lia.
   - apply frag_call in H. destruct H as [_ H]. rewrite nplaces_call. cbn [xplace].
-    apply (xplace_range_block body IH H (body_pos p0)).
+    apply (xplace_range_block body IH H (body_pos t p0)).
   - rewrite nplaces_par. cbn [xplace]. lia.
   - rewrite nplaces_cond. cbn [xplace]. lia.
   - rewrite nplaces_while. cbn [xplace]. lia.
+  - rewrite nplaces_count. cbn [xplace]. lia.
 Qed.
 
 Lemma napis_l_one : forall s, napis_l [s] = napis s.
@@ -578,9 +619,9 @@ Proof.
       rewrite E3, H3, hits_true; [reflexivity|]. rewrite Hes. left. reflexivity.
   - (* call *)
     apply frag_call in Hf. destruct Hf as [_ Hf]. rewrite ntrans_call, napis_call in *.
-    assert (Hagb : agree N N' (body_pos p0) (ntrans_b body) (napis_l body) es extra)
+    assert (Hagb : agree N N' (body_pos t p0) (ntrans_b body) (napis_l body) es extra)
       by (eapply agree_sub; [exact Hag|cbn [body_pos pt pa]; lia..]).
-    destruct (wired_agree_block N N' es extra body IH Hf (body_pos p0) (pa p0) (CbTF (pa p0) :: xcbs) Hagb) as [Bo Be].
+    destruct (wired_agree_block N N' es extra body IH Hf (body_pos t p0) (pa p0) (CbTF (pa p0) :: xcbs) Hagb) as [Bo Be].
     destruct Hag as (_ & Ha & _).
     split.
     + intros Ho Hw. cbn [wired] in *. destruct Hw as (Ha0 & Hw). split; [rewrite Ha by lia; exact Ha0|]. apply Bo; assumption.
@@ -698,9 +739,9 @@ Proof.
       * intros e He. rewrite Hes in He. cbn [cond_f pt]. destruct He as [<-|[<-|[]]]; lia.
   - (* while loop *)
     apply frag_while in Hf. rewrite ntrans_while, napis_while in *.
-    assert (HagB : agree N N' (cond_p p0) (ntrans_b b) (napis_l b) es extra)
-      by (eapply agree_sub; [exact Hag|cbn [cond_p pt pa]; lia..]).
-    destruct (wired_agree_block N N' es extra b IH Hf (cond_p p0) ctx [] HagB) as [Bo _].
+    assert (HagB : agree N N' (loop_p p0) (ntrans_b b) (napis_l b) es extra)
+      by (eapply agree_sub; [exact Hag|cbn [loop_p pt pa]; lia..]).
+    destruct (wired_agree_block N N' es extra b IH Hf (loop_p p0) ctx [] HagB) as [Bo _].
     destruct Hag as (Ht & _).
     destruct (Ht (pt p0) ltac:(lia)) as (A1 & A2 & A3).
     destruct (Ht (pt p0 + 1) ltac:(lia)) as (B1 & B2 & B3).
@@ -708,7 +749,7 @@ Proof.
     assert (Hrest : forall xcbs',
                hits es (pt p0) = false -> hits es (pt p0 + 2) = false ->
                cbsN N' (pt p0 + 1) = xcbs' ->
-               outside_t es (pt (cond_p p0)) (pt (cond_p p0) + ntrans_b b) ->
+               outside_t es (pt (loop_p p0)) (pt (loop_p p0) + ntrans_b b) ->
                wired N (XWhile e0 b) p0 ctx xcbs -> wired N' (XWhile e0 b) p0 ctx xcbs').
     { intros xcbs' H0 H2 H1 HoB Hw. cbn [wired] in *.
       destruct Hw as (W1 & W2 & W3 & W4 & W5 & W6 & W7 & W8 & W9 & WB).
@@ -721,7 +762,7 @@ Proof.
       * apply hits_false. intros e He Heq. destruct (Ho e He); lia.
       * apply hits_false. intros e He Heq. destruct (Ho e He); lia.
       * rewrite B3, W6, hits_false, app_nil_r; [reflexivity|]. intros e He Heq. destruct (Ho e He); lia.
-      * intros e He. destruct (Ho e He); cbn [cond_p pt]; lia.
+      * intros e He. destruct (Ho e He); cbn [loop_p pt]; lia.
     + intros Hes Hw. pose proof Hw as Hw0. cbn [wired] in Hw0.
       destruct Hw0 as (_ & _ & _ & _ & _ & W6 & _).
       cbn [exits] in Hes.
@@ -729,5 +770,39 @@ Proof.
       * apply hits_false. intros e He Heq. rewrite Hes in He. destruct He as [<-|[]]; lia.
       * apply hits_false. intros e He Heq. rewrite Hes in He. destruct He as [<-|[]]; lia.
       * rewrite B3, W6, hits_true; [reflexivity|]. rewrite Hes. left. reflexivity.
-      * intros e He. rewrite Hes in He. cbn [cond_p pt]. destruct He as [<-|[]]; lia.
+      * intros e He. rewrite Hes in He. cbn [loop_p pt]. destruct He as [<-|[]]; lia.
+  - (* counting loop *)
+    apply frag_count in Hf. rewrite ntrans_count, napis_count in *.
+    assert (HagB : agree N N' (loop_p p0) (ntrans_b b) (napis_l b) es extra)
+      by (eapply agree_sub; [exact Hag|cbn [loop_p pt pa]; lia..]).
+    destruct (wired_agree_block N N' es extra b IH Hf (loop_p p0) ctx [] HagB) as [Bo _].
+    destruct Hag as (Ht & _).
+    destruct (Ht (pt p0) ltac:(lia)) as (A1 & A2 & A3).
+    destruct (Ht (pt p0 + 1) ltac:(lia)) as (B1 & B2 & B3).
+    destruct (Ht (pt p0 + 2) ltac:(lia)) as (C1 & C2 & C3).
+    assert (Hrest : forall xcbs',
+               hits es (pt p0) = false -> hits es (pt p0 + 2) = false ->
+               cbsN N' (pt p0 + 1) = xcbs' ->
+               outside_t es (pt (loop_p p0)) (pt (loop_p p0) + ntrans_b b) ->
+               wired N (XCount v l b) p0 ctx xcbs -> wired N' (XCount v l b) p0 ctx xcbs').
+    { intros xcbs' H0 H2 H1 HoB Hw. cbn [wired] in *.
+      destruct Hw as (W1 & W2 & W3 & W4 & W5 & W6 & W7 & W8 & W9 & WB).
+      rewrite H0, app_nil_r in A3. rewrite H2, app_nil_r in C3.
+      repeat (split; [congruence|]). apply Bo; assumption. }
+    split.
+    + intros Ho Hw. pose proof Hw as Hw0. cbn [wired] in Hw0.
+      destruct Hw0 as (_ & _ & _ & _ & _ & W6 & _).
+      apply Hrest; try exact Hw.
+      * apply hits_false. intros e He Heq. destruct (Ho e He); lia.
+      * apply hits_false. intros e He Heq. destruct (Ho e He); lia.
+      * rewrite B3, W6, hits_false, app_nil_r; [reflexivity|]. intros e He Heq. destruct (Ho e He); lia.
+      * intros e He. destruct (Ho e He); cbn [loop_p pt]; lia.
+    + intros Hes Hw. pose proof Hw as Hw0. cbn [wired] in Hw0.
+      destruct Hw0 as (_ & _ & _ & _ & _ & W6 & _).
+      cbn [exits] in Hes.
+      apply Hrest; try exact Hw.
+      * apply hits_false. intros e He Heq. rewrite Hes in He. destruct He as [<-|[]]; lia.
+      * apply hits_false. intros e He Heq. rewrite Hes in He. destruct He as [<-|[]]; lia.
+      * rewrite B3, W6, hits_true; [reflexivity|]. rewrite Hes. left. reflexivity.
+      * intros e He. rewrite Hes in He. cbn [loop_p pt]. destruct He as [<-|[]]; lia.
 Qed.
